@@ -10,6 +10,7 @@ from ..num import wire, unwire, canon
 from ..pools import RecPool
 
 STREAMS = ["linear", "rel", "stepwise", "switch"]
+REGENERATE_SRC = True
 RULE = ("pool states on and around every threshold (t, t±1/k), controller parameters accepted and rejected by "
         "the constructors, rule / slave tables of 0..8 entries in random declaration order (duplicates and zero "
         "thresholds rejected), sequences of 1..25 regulation steps interleaved with pool state changes; Stepwise "
